@@ -639,6 +639,8 @@ static void run_case(char *line)
 					vk_faults.no_eventfd2 = 1;
 				else if (!strcmp(f, "noeventfd"))
 					vk_faults.no_eventfd = 1;
+				else if (!strncmp(f, "forkfail=", 9))	/* the k-th fork() fails with EAGAIN */
+					mt_fork_fail_at = atoi(f + 9);
 				else if (!strcmp(f, "kickyield"))	/* yield also after a cross-thread kick took effect */
 					vk_yield_after_kick = 1;
 				else if (!strncmp(f, "efdok=", 6))	/* the failures start after k eventfds were created */
